@@ -97,6 +97,8 @@ def run_one(name, tier):
                 res["checks"][pid] = {"exit": rc, "caught": rc == 1 and bool(vio), "violation_line": vio[0] if vio else None,
                                       "no_failing_input_found": bool(vio and vio[0].endswith("no-failing-input-found")),
                                       "replay_summary": rp, "wall_s": round(time.time() - t0, 1)}
+                if not (rc == 1 and vio):
+                    res["checks"][pid]["output_tail"] = out[-3000:]
     finally:
         sh("git -C /repo worktree remove --force %s" % wt)
         # the run rewrote the evidence files with what it saw on the patched tree: restore the committed ones
